@@ -656,6 +656,36 @@ def part_run(ctx: Ctx) -> Result:
         res.validated += 1
         if set(logged) != sel:
             res.violate(Violation(ID, "custom-filter", "subset-mismatch", {"part": "F", "mask": mask}, f"filter accepts {sorted(sel)} but logger saw {sorted(set(logged))}"))
+    # a filter that RAISES for some functions (and admits or rejects the others): a function the filter did not admit is
+    # not recorded, whatever happened inside the filter; every subset of {f0, f1, f2} raising
+    for mask in range(1, 8):
+        bad = {funcs[n3_].__code__ for i, n3_ in enumerate(["f0", "f1", "f2"]) if mask & (1 << i)}
+        badnames = {n3_ for i, n3_ in enumerate(["f0", "f1", "f2"]) if mask & (1 << i)}
+        logged_r: List[str] = []
+
+        class LR:
+            def log(self, t):
+                logged_r.append(t.func.__qualname__)
+
+            def flush(self):
+                pass
+
+        def raising(code, bad=bad):
+            if code in bad:
+                raise RuntimeError("filter failure")
+            return code.co_filename == mod.__file__
+
+        try:
+            with trace_calls(LR(), 0, raising):
+                mod.f0(1); mod.f1(1); mod.f2(1)
+        except RuntimeError:
+            pass   # (whether the failure reaches the program is C03's subject)
+        res.states += 1
+        res.transitions += 1
+        res.evaluations += 1
+        res.validated += 1
+        if set(logged_r) & badnames:
+            res.violate(Violation(ID, "custom-filter", "recorded-although-the-filter-raised", {"part": "F", "mask": mask, "raising": True}, f"the filter raises for {sorted(badnames)} and admits the rest of the file: logger saw {logged_r}"))
     # nested tracing blocks, every pair of subset filters over three functions: leaving the inner block hands tracing
     # back to the outer one, and each logger only ever sees what its own filter accepts
     n3 = names[:3]
